@@ -629,7 +629,8 @@ impl Scenario for C10Agent {
                 }
             }
             // ---- conservation: only in fault-free runs (a failed send loses that payload, as documented)
-            if v.is_none() && faults.is_empty() {
+            // (and only when no single counter/gauge message can be rejected for size: the longest one is ~60 bytes)
+            if v.is_none() && faults.is_empty() && plan.max_payload.map_or(true, |m| m >= 100) {
                 // flush k happens at virtual time k * interval; its sends fall into [k*I, (k+1)*I)
                 let last_cycle = messages.iter().map(|m| m.0 / interval).max().unwrap_or(0).max(plan.cycles.len() as u64 + 3);
                 for k in 1..=last_cycle {
